@@ -60,9 +60,9 @@ theorem requestLine_stable (b t : Bytes) (m p : Bytes) (h : requestLine b = some
       · rw [List.take_append_of_le_length (by omega)]; exact h.1
       · rw [List.take_append_of_le_length (by simp only [List.length_drop]; omega)]; exact h.2
 
-theorem admit_some (h : Bytes) (p : Nat) (a : Addr) (ha : admit h p = some a) :
+theorem admitHost_some (h : Bytes) (p : Nat) (a : Addr) (ha : admitHost h p = some a) :
     a = .domain h p ∧ 0 < h.length ∧ h.length ≤ 255 := by
-  unfold admit at ha
+  unfold admitHost at ha
   split at ha
   · cases ha
   · cases ha; exact ⟨rfl, by omega, by omega⟩
@@ -73,11 +73,11 @@ theorem c13_plain_http_untouched (b : Bytes) (a : Addr) (n : Nat) (r : Bytes) (m
     (ht : httpHandshake b = .tunnel a n r) : n = 0 ∧ r = [] ∧ a = .domain h port := by
   unfold httpHandshake at ht
   simp only [hl, hr] at ht
-  cases ha : admit h port with
+  cases ha : admitHost h port with
   | none => simp [ha] at ht
   | some a' =>
     simp only [ha, Outcome.tunnel.injEq] at ht
-    exact ⟨ht.2.1.symm, ht.2.2.symm, by rw [← ht.1]; exact (admit_some h port a' ha).1⟩
+    exact ⟨ht.2.1.symm, ht.2.2.symm, by rw [← ht.1]; exact (admitHost_some h port a' ha).1⟩
 
 /-- **nothing unrepresentable is tunnelled**: whatever the bytes, a tunnel is opened only towards an
 address the outbound protocols can carry (C14's admission predicate) -/
@@ -96,14 +96,14 @@ theorem c13_http_tunnel_is_admitted (b : Bytes) (a : Addr) (n : Nat) (r : Bytes)
       cases px with
       | http h port =>
         simp only [hr] at ht
-        cases ha : admit h port with
+        cases ha : admitHost h port with
         | none => simp [ha] at ht
         | some a' =>
           simp only [ha, Outcome.tunnel.injEq] at ht
-          exact ⟨h, port, by rw [← ht.1]; exact (admit_some h port a' ha).1, (admit_some h port a' ha).2⟩
+          exact ⟨h, port, by rw [← ht.1]; exact (admitHost_some h port a' ha).1, (admitHost_some h port a' ha).2⟩
       | https h port =>
         simp only [hr] at ht
-        cases ha : admit h port with
+        cases ha : admitHost h port with
         | none => simp [ha] at ht
         | some a' =>
           simp only [ha] at ht
@@ -111,7 +111,7 @@ theorem c13_http_tunnel_is_admitted (b : Bytes) (a : Addr) (n : Nat) (r : Bytes)
           | none => simp only [hb] at ht; split at ht <;> cases ht
           | some k =>
             simp only [hb, Outcome.tunnel.injEq] at ht
-            exact ⟨h, port, by rw [← ht.1]; exact (admit_some h port a' ha).1, (admit_some h port a' ha).2⟩
+            exact ⟨h, port, by rw [← ht.1]; exact (admitHost_some h port a' ha).1, (admitHost_some h port a' ha).2⟩
 
 /-- **a CONNECT request is consumed exactly**: up to and including its first blank line, and
 answered with the 200 line -/
@@ -121,7 +121,7 @@ theorem c13_connect_consumed_exactly (b : Bytes) (a : Addr) (n : Nat) (r : Bytes
     findBlankLine (b.take 8192) = some n ∧ r = connectReply := by
   unfold httpHandshake at ht
   simp only [hl, hr] at ht
-  cases ha : admit h port with
+  cases ha : admitHost h port with
   | none => simp [ha] at ht
   | some a' =>
     simp only [ha] at ht
@@ -171,7 +171,7 @@ theorem c13_socks5_connect (methods : Bytes) (hm : methods.all Socks5.authMethod
   cases a with
   | domain h p =>
     obtain ⟨h1, h2, _⟩ := ha
-    simp [admit, Nat.ne_of_gt h1, Nat.not_lt.mpr h2]
+    simp [admitHost, Nat.ne_of_gt h1, Nat.not_lt.mpr h2]
   | v4 ip p => simp
   | v6 ip p => simp
 
